@@ -19,6 +19,8 @@ RULE = ("file: push of a real file / BytesIO with sizes around the chunk and max
         "no WRTE payload may exceed the device's maxdata (stream monitor); the status OKAY must have been delivered and acknowledged before push returns; callback byte "
         "counts sum to the size. cbdiff: the same push without / with / with a raising callback must produce identical host packets. dir: a real directory (0..5 files, "
         "optionally a sub-directory) is pushed while the working directory is elsewhere and holds same-named decoys. "
+        "reconnect: one device object re-connected (with / without close()) to devices announcing other maxdata values, a push after each connect obeys the current limit. "
+        "fifo: the source is a named pipe whose writer pauses between pieces, so read() returns less than asked before end of file. "
         "non-trivial = at least one DATA record; distinct = distinct (kind, impl, size class, maxdata, source, callback, path length) signatures")
 ASSUMPTIONS = ["the `mkdir` shell stream that push opens first for a directory is tolerated, not demanded", "sub-directories of a pushed directory are not transferred (the statement speaks of regular files directly inside)"]
 SHARDS = {"quick": 8, "thorough": 16}
